@@ -252,6 +252,9 @@ def run_case(asm, acc, case):
             acc['ctr']['refused'] += 1
             acc['ctr']['refused:' + ex.exc['msg'][:40]] += 1
             acc['n'] += 1
+            if case['kind'] in ('named', 'drift'):
+                # every target of these programs is inside the reach of its transfer and li takes every value: nothing to turn down
+                core.add_viol(acc, 'program %r (compress=%s) is refused: %s' % ('; '.join(ex.lines)[:200], compress, ex.exc['msg'][:120]), rcase, {})
             continue
         if ex.layout_problem:
             core.add_viol(acc, 'layout: ' + ex.layout_problem, rcase, {})
